@@ -212,4 +212,33 @@ theorem lookup_groups (g : List Char → List Entry) (f : List Entry → Val) : 
       · exact absurd h.symm hx
       · exact ih k h
 
+/-! ## `FormatString.__init__` around the loop -/
+
+theorem parse_loop {s : List Char} {r : Result} (h : parse s = .ok r) :
+    ∃ st, loop true (s.length + 1) s [] St.init = .ok st ∧ r.seq = st.seq ∧ r.map = groups st.map ∧
+      (groups st.map).all (fun g => sameType g.2) = true := by
+  unfold parse parseW at h
+  cases hl : loop true (s.length + 1) s [] St.init with
+  | error e => rw [hl] at h; cases h
+  | ok st =>
+    rw [hl] at h
+    simp only [] at h
+    split at h
+    · rename_i hall; cases h; exact ⟨st, rfl, rfl, rfl, hall⟩
+    · cases h
+
+/-- the error of `parse` is the error of the loop or `ArgumentTypeMismatch` -/
+theorem parse_error {s : List Char} {e : PErr} (h : parse s = .error e) :
+    loop true (s.length + 1) s [] St.init = .error e ∨ e = .ArgumentTypeMismatch := by
+  unfold parse parseW at h
+  cases hl : loop true (s.length + 1) s [] St.init with
+  | error e' => rw [hl] at h; cases h; exact Or.inl rfl
+  | ok st =>
+    rw [hl] at h
+    simp only [] at h
+    split at h
+    · cases h
+    · cases h; exact Or.inr rfl
+
+
 end I18n.PyFmt
